@@ -47,7 +47,9 @@ InitWorld ==
       tok  |-> [t \in TokensUsed \cup {LP} |->
                   IF t = LP
                   THEN [bal |-> [a \in AllAccts |-> 0], supply |-> 0, decimals |-> 6, minter |-> PAIR, allow |-> {}]
-                  ELSE [bal |-> [a \in AllAccts |-> StartBal(a)], supply |-> 17, decimals |-> 1, minter |-> "",
+                  \* the pair's stored decimals (1, 0) are the decimals its assets really have
+                  ELSE [bal |-> [a \in AllAccts |-> StartBal(a)], supply |-> 17,
+                        decimals |-> (IF Token(t) = A0 THEN 1 ELSE 0), minter |-> "",
                         allow |-> {<<u, PAIR, 200>> : u \in Users}]],
       pair |-> (PAIR :> [a0 |-> A0, a1 |-> A1, d0 |-> 1, d1 |-> 0, lp |-> LP, self_lp |-> LP, commission |-> COMMISSION,
                          wl |-> {"lp1"}, m0 |-> 2, m1 |-> 1]),
